@@ -14,6 +14,7 @@ import (
 	"path"
 	"path/filepath"
 	"slices"
+	"sync"
 	"text/template"
 	"time"
 
@@ -39,6 +40,10 @@ type HTMLReport struct {
 
 	// outputDir is the output directory for the generated reports.
 	outputDir string
+
+	// mutex guards the asset and the best results, as the backtest
+	// workers report at the same time.
+	mutex sync.Mutex
 
 	// assetResults is the mapping from the asset name to strategy results.
 	assetResults map[string][]*htmlReportResult
@@ -103,6 +108,9 @@ func (h *HTMLReport) Begin(assetNames []string, _ []strategy.Strategy) error {
 
 // AssetBegin is called when backtesting for the given asset begins.
 func (h *HTMLReport) AssetBegin(name string, strategies []strategy.Strategy) error {
+	h.mutex.Lock()
+	defer h.mutex.Unlock()
+
 	_, ok := h.assetResults[name]
 	if ok {
 		return fmt.Errorf("asset has already begun: %s", name)
@@ -137,6 +145,18 @@ func (h *HTMLReport) Write(assetName string, currentStrategy strategy.Strategy, 
 		go helper.Drain(snapshots)
 	}
 
+	result := &htmlReportResult{
+		AssetName:    assetName,
+		StrategyName: currentStrategy.Name(),
+		Action:       <-actions,
+		Since:        <-sinces,
+		Outcome:      <-outcomes * 100,
+		Transactions: <-transactions,
+	}
+
+	h.mutex.Lock()
+	defer h.mutex.Unlock()
+
 	// Get asset strategy results.
 	results, ok := h.assetResults[assetName]
 	if !ok {
@@ -144,26 +164,21 @@ func (h *HTMLReport) Write(assetName string, currentStrategy strategy.Strategy, 
 	}
 
 	// Append current strategy result for the asset.
-	h.assetResults[assetName] = append(results, &htmlReportResult{
-		AssetName:    assetName,
-		StrategyName: currentStrategy.Name(),
-		Action:       <-actions,
-		Since:        <-sinces,
-		Outcome:      <-outcomes * 100,
-		Transactions: <-transactions,
-	})
+	h.assetResults[assetName] = append(results, result)
 
 	return nil
 }
 
 // AssetEnd is called when backtesting for the given asset ends.
 func (h *HTMLReport) AssetEnd(name string) error {
+	h.mutex.Lock()
 	results, ok := h.assetResults[name]
+	delete(h.assetResults, name)
+	h.mutex.Unlock()
+
 	if !ok {
 		return fmt.Errorf("asset has not begun: %s", name)
 	}
-
-	delete(h.assetResults, name)
 
 	// Sort the backtest results by the outcomes.
 	slices.SortFunc(results, func(a, b *htmlReportResult) int {
@@ -174,7 +189,9 @@ func (h *HTMLReport) AssetEnd(name string) error {
 
 	// Report the best result for the current asset.
 	h.Logger.Info("Best outcome", "asset", name, "strategy", bestResult.StrategyName, "outcome", bestResult.Outcome)
+	h.mutex.Lock()
 	h.bestResults = append(h.bestResults, bestResult)
+	h.mutex.Unlock()
 
 	// Write the asset report.
 	err := h.writeAssetReport(name, results)
